@@ -108,13 +108,17 @@ ASSUME = [
 ]
 
 
+def prepare(inst):
+    text = kani.read_inject("c12_record.rs").replace("//@@INSTANCES@@", inst)
+    return klane.prepare("c12", {"record.rs": [text]})
+
+
 def run(ctx):
     tier, seed = ctx["tier"], ctx["seed"]
     inst, specs = build(tier, seed)
     if ctx.get("only"):
         specs = [s for s in specs if ctx["only"] in s.name or ctx["only"] in s.fq]
-    text = kani.read_inject("c12_record.rs").replace("//@@INSTANCES@@", inst)
-    d = klane.prepare("c12", {"record.rs": [text]})
+    d = prepare(inst)
     runner = kani.KaniRunner(d, jobs=ctx["jobs"], timeout=900)
     obls = klane.evaluate("C12", d, runner, specs)
     samples = [o.as_json() for o in obls if o.name.startswith("O12.3")][:4] + [o.as_json() for o in obls[:2]]
